@@ -237,3 +237,37 @@ def tabulate_job(job):
     iv = jax.vmap(problem.initial_value)(problem.state_space)
     t["init_values"] = _fx(iv)
     return t
+
+
+# ----------------------------------------------------------------------------- C06
+@handler("savi_sweeps")
+def savi_sweeps(job):
+    """Semi-async solver: solve(1) repeatedly, recording the value vector after every sweep,
+    the permutation the hook recorded, and an independent recomputation of the documented permutation."""
+    _quiet()
+    import jax
+    import jax.numpy as jnp
+    import numpy as np
+    jax.config.update("jax_enable_x64", True)
+    problem = make_problem(job["problem"])
+    cfg = dict(job["config"])
+    cfg.setdefault("verbose", 0)
+    solver = make_solver("savi", problem, cfg)
+    out = {"values": [_fx(solver.values)], "iteration": [], "n_devices": int(solver.n_devices), "batch_size": int(solver.batch_size),
+           "n_batches": int(solver.batch_processor.n_batches), "n_pad": int(solver.n_pad)}
+    key = jax.random.PRNGKey(int(cfg.get("random_seed", 42)))
+    documented = []
+    for _ in range(job["sweeps"]):
+        solver.solve(max_iterations=1)
+        out["values"].append(_fx(solver.values))
+        out["iteration"].append(int(solver.iteration))
+        if cfg.get("shuffle_states"):
+            key, sub = jax.random.split(key)
+            documented.append([int(x) for x in np.asarray(jax.random.permutation(sub, jnp.arange(problem.n_states)))])
+        else:
+            documented.append(None)
+    perms = getattr(solver, "_verif_permutations", None)
+    out["perms"] = None if perms is None else [None if p is None else [int(x) for x in p] for p in perms]
+    out["documented_perms"] = documented
+    out["policy"] = _canon_policy(problem, solver.policy)
+    return out
